@@ -1,5 +1,5 @@
-use super::field_utils::parse_party_identifier;
-use super::swift_utils::{parse_bic, parse_max_length};
+use super::field_utils::{parse_name_and_address, parse_party_identifier};
+use super::swift_utils::{parse_bic, parse_max_length, parse_swift_chars};
 use crate::errors::ParseError;
 use crate::traits::SwiftField;
 use serde::{Deserialize, Serialize};
@@ -204,30 +204,15 @@ impl SwiftField for Field53D {
 
             if looks_like_party_id && !first_line.is_empty() && lines.len() > 1 {
                 // Entire first line is party identifier
-                party_identifier = Some(first_line.to_string());
+                let party_id = parse_max_length(first_line, 35, "Field 53D party identifier")?;
+                parse_swift_chars(&party_id, "Field 53D party identifier")?;
+                party_identifier = Some(party_id);
                 lines.remove(0);
             }
         }
 
-        // Parse remaining lines as name and address (max 4 lines, max 35 chars each)
-        let mut name_and_address = Vec::new();
-        for (i, line) in lines.iter().enumerate() {
-            if i >= 4 {
-                break;
-            }
-            if line.len() > 35 {
-                return Err(ParseError::InvalidFormat {
-                    message: format!("Field 53D line {} exceeds 35 characters", i + 1),
-                });
-            }
-            name_and_address.push(line.to_string());
-        }
-
-        if name_and_address.is_empty() {
-            return Err(ParseError::InvalidFormat {
-                message: "Field 53D must contain name and address information".to_string(),
-            });
-        }
+        // Parse remaining lines as name and address (1 to 4 lines of 35x)
+        let name_and_address = parse_name_and_address(&lines, 0, "Field 53D")?;
 
         Ok(Field53D {
             party_identifier,
